@@ -9,6 +9,8 @@ import (
 type ShallowStorage struct {
 	storer.ShallowStorer
 	temporal storer.ShallowStorer
+
+	set bool
 }
 
 // NewShallowStorage returns a new ShallowStorage based on a base storer and
@@ -22,28 +24,32 @@ func NewShallowStorage(base, temporal storer.ShallowStorer) *ShallowStorage {
 
 // SetShallow honors the storer.ShallowStorer interface.
 func (s *ShallowStorage) SetShallow(commits []plumbing.Hash) error {
-	return s.temporal.SetShallow(commits)
+	if err := s.temporal.SetShallow(commits); err != nil {
+		return err
+	}
+
+	s.set = true
+	return nil
 }
 
 // Shallow honors the storer.ShallowStorer interface.
 func (s *ShallowStorage) Shallow() ([]plumbing.Hash, error) {
-	shallow, err := s.temporal.Shallow()
-	if err != nil {
-		return nil, err
+	if !s.set {
+		return s.ShallowStorer.Shallow()
 	}
 
-	if len(shallow) != 0 {
-		return shallow, nil
-	}
-
-	return s.ShallowStorer.Shallow()
+	return s.temporal.Shallow()
 }
 
 // Commit it copies the shallow information of the temporal storage into the
 // base storage.
 func (s *ShallowStorage) Commit() error {
+	if !s.set {
+		return nil
+	}
+
 	commits, err := s.temporal.Shallow()
-	if err != nil || len(commits) == 0 {
+	if err != nil {
 		return err
 	}
 
